@@ -180,7 +180,7 @@ def run_(ctx):
 
     rv = request_variants()
     rv["truncated"] = truncations(VALID_POST)[::1 if not ctx.quick else 2] + truncations(chunked(b"3"))[::3]
-    nrand = 60 if ctx.quick else 1500
+    nrand = 60 if ctx.quick else 12000
     for kind, key in (("req", "mutated"), ("resp", "rmutated")):
         msgs = ctx.tlc("http", "MessageGen", core.cfg_text(
             constants={"Kind": '"%s"' % kind, "MaxPipe": 1, "Bodies": {"none", "cl", "ch2x", "ch2t"} | ({"close"} if kind == "resp" else set()),
@@ -212,7 +212,7 @@ def run_(ctx):
                     record(tr, info)
     cv = response_variants()
     cv["truncated"] = truncations(cv["valid"][0])
-    cv["random"] = rv["random"][: (40 if ctx.quick else 600)]
+    cv["random"] = rv["random"][: (40 if ctx.quick else 6000)]
     cv["mutated"] = globals()["_RM"]["rmutated"]
     for cls, variants in cv.items():
         for data in variants:
